@@ -19,6 +19,132 @@ use sophia_api::term::{BnodeId, LanguageTag, Term, TermKind, VarName};
 use sophia_api::triple::{TBorrowTerm, Triple};
 use sophia_iri::{Iri, IriRef};
 
+/// Check that every term of this triple satisfies Sophia's own validity rules
+/// (the ones that the accessors of [`Trusted`] rely on, unchecked).
+///
+/// Rio's parsers do not guarantee all of them:
+/// the IRI made of a namespace and a local name (prefixed names, XML element names)
+/// is not re-validated, `rdf:nodeID` values are not checked against the blank node label grammar,
+/// and the generalized parsers do not validate IRIs at all.
+pub(crate) fn check_triple(t: &RioTriple) -> Result<(), InvalidTerm> {
+    match t.subject {
+        rio_api::model::Subject::NamedNode(n) => check_named_node(n, true)?,
+        rio_api::model::Subject::BlankNode(b) => check_blank_node(b)?,
+        rio_api::model::Subject::Triple(t) => check_triple(t)?,
+    }
+    check_named_node(t.predicate, true)?;
+    check_term(&t.object)
+}
+
+/// See [`check_triple`]
+pub(crate) fn check_quad(q: &RioQuad) -> Result<(), InvalidTerm> {
+    match q.subject {
+        rio_api::model::Subject::NamedNode(n) => check_named_node(n, true)?,
+        rio_api::model::Subject::BlankNode(b) => check_blank_node(b)?,
+        rio_api::model::Subject::Triple(t) => check_triple(t)?,
+    }
+    check_named_node(q.predicate, true)?;
+    check_term(&q.object)?;
+    match q.graph_name {
+        None => Ok(()),
+        Some(GraphName::NamedNode(n)) => check_named_node(n, true),
+        Some(GraphName::BlankNode(b)) => check_blank_node(b),
+    }
+}
+
+/// See [`check_triple`]
+pub(crate) fn check_generalized_quad(q: &GeneralizedQuad) -> Result<(), InvalidTerm> {
+    check_generalized_term(&q.subject)?;
+    check_generalized_term(&q.predicate)?;
+    check_generalized_term(&q.object)?;
+    match &q.graph_name {
+        None => Ok(()),
+        Some(g) => check_generalized_term(g),
+    }
+}
+
+fn check_term(t: &RioTerm) -> Result<(), InvalidTerm> {
+    match t {
+        RioTerm::NamedNode(n) => check_named_node(*n, true),
+        RioTerm::BlankNode(b) => check_blank_node(*b),
+        RioTerm::Literal(l) => check_literal(*l),
+        RioTerm::Triple(t) => check_triple(t),
+    }
+}
+
+fn check_generalized_term(t: &GeneralizedTerm) -> Result<(), InvalidTerm> {
+    match t {
+        GeneralizedTerm::NamedNode(n) => check_named_node(*n, false),
+        GeneralizedTerm::BlankNode(b) => check_blank_node(*b),
+        GeneralizedTerm::Literal(l) => check_literal(*l),
+        GeneralizedTerm::Variable(v) => {
+            if VarName::new(v.name).is_ok() {
+                Ok(())
+            } else {
+                Err(InvalidTerm(format!("invalid variable name {:?}", v.name)))
+            }
+        }
+        GeneralizedTerm::Triple(t) => {
+            check_generalized_term(&t[0])?;
+            check_generalized_term(&t[1])?;
+            check_generalized_term(&t[2])
+        }
+    }
+}
+
+fn check_named_node(n: NamedNode, absolute: bool) -> Result<(), InvalidTerm> {
+    let ok = if absolute {
+        Iri::new(n.iri).is_ok()
+    } else {
+        IriRef::new(n.iri).is_ok()
+    };
+    if ok {
+        Ok(())
+    } else {
+        Err(InvalidTerm(format!("invalid IRI <{}>", n.iri)))
+    }
+}
+
+fn check_blank_node(b: BlankNode) -> Result<(), InvalidTerm> {
+    if BnodeId::new(b.id).is_ok() {
+        Ok(())
+    } else {
+        Err(InvalidTerm(format!("invalid blank node label {:?}", b.id)))
+    }
+}
+
+fn check_literal(l: Literal) -> Result<(), InvalidTerm> {
+    match l {
+        Literal::Simple { .. } => Ok(()),
+        Literal::LanguageTaggedString { language, .. } => {
+            if LanguageTag::new(language).is_ok() {
+                Ok(())
+            } else {
+                Err(InvalidTerm(format!("invalid language tag {language:?}")))
+            }
+        }
+        Literal::Typed { datatype, .. } => check_named_node(datatype, true),
+    }
+}
+
+/// The error raised when a Rio parser produces a term that Sophia does not consider valid.
+#[derive(Clone, Debug)]
+pub struct InvalidTerm(String);
+
+impl std::fmt::Display for InvalidTerm {
+    fn fmt(&self, f: &mut std::fmt::Formatter<'_>) -> std::fmt::Result {
+        write!(f, "the parser produced an {}", self.0)
+    }
+}
+
+impl std::error::Error for InvalidTerm {}
+
+impl From<InvalidTerm> for std::io::Error {
+    fn from(e: InvalidTerm) -> Self {
+        Self::new(std::io::ErrorKind::InvalidData, e)
+    }
+}
+
 impl Term for Trusted<BlankNode<'_>> {
     type BorrowTerm<'x>
         = Self
